@@ -134,3 +134,65 @@ REG.contract(
     props=["C07"],
     note="update(other) with another set: the result is the set-theoretic union (iteration is over the other set's items)",
 )
+
+# ---- predicates and clear (read-only loops with an early exit; both directions of the verdict) ----
+REG.contract(
+    "dns.set.Set.issubset",
+    params={"self": SET, "other": SET},
+    cases=[_DISTINCT, _ALIAS],
+    raises=[],
+    modifies={},
+    loops={0: loop(index="i0", invariant=[
+        "all(self_keys[j] in other.items for j in range(i0))",
+    ])},
+    ghost_entry={"self_keys": "self.items.keys()"},
+    ensures=["(not result) or all(k in other.items for k in self.items)",
+             "result or any(not (self_keys[j] in other.items) for j in range(len(self_keys)))",
+             "result == True or result == False"],
+    props=["C07"],
+    note="issubset is exactly the set-theoretic inclusion (True iff every element is in other), nothing is modified",
+)
+
+REG.contract(
+    "dns.set.Set.issuperset",
+    params={"self": SET, "other": SET},
+    cases=[_DISTINCT, _ALIAS],
+    raises=[],
+    modifies={},
+    loops={0: loop(index="i0", invariant=[
+        "all(other_keys[j] in self.items for j in range(i0))",
+    ])},
+    ghost_entry={"other_keys": "other.items.keys()"},
+    ensures=["(not result) or all(k in self.items for k in other.items)",
+             "result or any(not (other_keys[j] in self.items) for j in range(len(other_keys)))",
+             "result == True or result == False"],
+    props=["C07"],
+    note="issuperset is exactly the converse inclusion, nothing is modified",
+)
+
+REG.contract(
+    "dns.set.Set.isdisjoint",
+    params={"self": SET, "other": SET},
+    cases=[_DISTINCT, _ALIAS],
+    raises=[],
+    modifies={},
+    loops={0: loop(index="i0", invariant=[
+        "all(not (other_keys[j] in self.items) for j in range(i0))",
+    ])},
+    ghost_entry={"other_keys": "other.items.keys()"},
+    ensures=["(not result) or all(not (k in self.items) for k in other.items)",
+             "result or any((other_keys[j] in self.items) for j in range(len(other_keys)))",
+             "result == True or result == False"],
+    props=["C07"],
+    note="isdisjoint is True iff no element of other is in self (so a non-empty set is not disjoint from itself)",
+)
+
+REG.contract(
+    "dns.set.Set.clear",
+    params={"self": SET},
+    raises=[],
+    modifies={"self.items": T.map_of(T.int, T.none)},
+    ensures=["all(not (k in self.items) for k in old_self.items)", "all(k in old_self.items for k in self.items)"],
+    props=["C07"],
+    note="clear leaves the empty set",
+)
